@@ -162,8 +162,18 @@ PROPS["C16"]["quick"].append({"module": "MC_C16B", "cfg": "MC_C16B_quick.cfg", "
 # the same matrices in very small units (entries x 2e-9; offsets >= 20): branches on ABSOLUTE thresholds (allclose defaults, fixed jitter)
 for _pid, _m, _c in (("C05", "MC_PDF", "MC_C05_micro.cfg"), ("C06", "MC_PDF", "MC_C06_micro.cfg"), ("C13", "MC_PDF", "MC_C13a_micro.cfg"),
                      ("C13", "MC_COND", "MC_C13b_micro.cfg"), ("C07", "MC_COND", "MC_C07_micro.cfg"), ("C08", "MC_COND", "MC_C08_micro.cfg"),
-                     ("C09", "MC_COND", "MC_C09_micro.cfg"), ("C10", "MC_COND", "MC_C10_micro.cfg")):
+                     ("C09", "MC_COND", "MC_C09_micro.cfg")):
     PROPS[_pid]["quick"].append({"module": _m, "cfg": _c, "nprimes": 22})
+# (no micro instance for C10: set_y multiplies unit-scale data by a precision of 1e9, the information vector of the
+#  posterior then cancels to O(1) and float64 rounding of the TERMS exceeds 1e-8 of the RESULT's scale - an ill-posed
+#  comparison, not a property violation; found on the unchanged tree before the instance was registered)
+# NumPy containers: objects built from and called with writable NumPy arrays; the library must not write into them
+for _pid, _m, _c in (("C01", "MC_PROD", "MC_PROD_c18.cfg"), ("C03", "MC_C03", "MC_C03w_quick.cfg"), ("C05", "MC_PDF", "MC_C05_aniso.cfg"),
+                     ("C06", "MC_PDF", "MC_C06_aniso.cfg"), ("C07", "MC_COND", "MC_C07_aniso.cfg"), ("C08", "MC_COND", "MC_C08_aniso.cfg"),
+                     ("C09", "MC_COND", "MC_C09_aniso.cfg"), ("C10", "MC_COND", "MC_C10_aniso.cfg"), ("C11", "MC_C11", "MC_C11s_quick.cfg"),
+                     ("C13", "MC_COND", "MC_C13b_aniso.cfg"), ("C14", "MC_COND", "MC_C14b_quick.cfg")):
+    PROPS[_pid]["quick"].append({"module": _m, "cfg": _c, "nprimes": 14, "container": "numpy"})
+
 PROPS["C12"]["quick"].append({"kind": "b2", "traces": 80, "length": 6, "family": "MC", "nprimes": 10})
 PROPS["C02"]["quick"].append({"kind": "b2", "traces": 60, "length": 6, "family": "MC", "nprimes": 10})
 _THOROUGH_SAMPLING = {"MC_C04M_thorough.cfg": 40, "MC_C04C_thorough.cfg": 24, "MC_C12M_thorough.cfg": 60, "MC_C12C_thorough.cfg": 12}
